@@ -1,5 +1,84 @@
-From BB Require Import Base TM Ref InstrsModel CpsModel.
+From BB Require Import Base TM InstrsModel CpsModel.
+From BB Require Import CpsData CpsSound.
 From BB.Properties Require Import C06.
-Check C06_cps_true_refuted_F2 :
-  exists prog rad n sl,
-    cps_cant_halt order_oldest_first prog rad = Ok true /\ halts_at (to_prog prog) init_config n sl.
+Open Scope N_scope.
+
+Check C06_cps_cant_halt_sound : forall order prog rad,
+  order_ok order -> dims_ok prog -> cps_cant_halt order prog rad = Ok true ->
+  forall n sl, ~ halts_at (to_prog prog) init_config n sl.
+
+Check C06_cps_cant_blank_sound : forall order prog rad,
+  order_ok order -> cps_cant_blank order prog rad = Ok true ->
+  forall n, ~ erases_at (to_prog prog) init_config n.
+
+Check C06_cps_cant_spin_out_sound : forall order prog rad,
+  order_ok order -> cps_cant_spin_out order prog rad = Ok true ->
+  forall n, ~ spins_out_at (to_prog prog) init_config n.
+
+Check C06_cps_run_halt_sound : forall order prog rad,
+  order_ok order -> cps_run order prog rad CpsHalt = Ok true ->
+  forall n sl, ~ halts_at (to_prog prog) init_config n sl.
+
+Check C06_cps_run_blank_sound : forall order prog rad,
+  order_ok order -> cps_run order prog rad CpsBlank = Ok true ->
+  forall n q, ~ blank_after (to_prog prog) init_config n q.
+
+Check C06_cps_run_spinout_sound : forall order prog rad,
+  order_ok order -> cps_run order prog rad CpsSpinout = Ok true ->
+  never_spins_out (to_prog prog) init_config.
+
+Check C06_cps_true_refuted_F2 : exists prog rad n sl,
+  cps_cant_halt order_oldest_first prog rad = Ok true /\
+  halts_at (to_prog prog) init_config n sl.
+
+Check C06_covered_step : forall prog goal n cfgs q z q' z',
+  covered n cfgs (q, z) -> checked prog goal cfgs (alpha n q z) ->
+  tm_step (to_prog prog) (q, z) = Some (q', z') ->
+  covered n cfgs (q', z').
+
+Check C06_sweep_registers : forall order prog goal fuel cfgs cfgs',
+  order_ok order -> cset_ok (c_seen cfgs) ->
+  cps_loop_body order prog goal fuel cfgs = inl cfgs' ->
+  cset_ok (c_seen cfgs') /\ cfgs_le cfgs cfgs' /\ all_registered prog cfgs'.
+
+Check C06_closed_after_true : forall order prog goal fuel cfgs,
+  order_ok order -> all_registered prog cfgs ->
+  cps_loop_body order prog goal fuel cfgs = inr (Ok true) ->
+  closed prog goal cfgs.
+
+Check C06_cps_cant_reach_sound : forall order prog rad goal,
+  order_ok order -> cps_cant_reach order prog rad goal = Ok true ->
+  exists cfgs, cset_ok (c_seen cfgs) /\ closed prog goal cfgs /\
+    forall n c, tm_steps (to_prog prog) n init_config = Some c ->
+                covered (N.to_nat (rad - 1)) cfgs c.
+
+Check C06_cps_run_sound : forall order prog rad goal,
+  cps_run order prog rad goal = Ok true ->
+  exists seg, cps_cant_reach order prog seg goal = Ok true.
+
+Check C06_reach_in_box : forall p, dims_ok p ->
+  forall n c, tm_steps (to_prog p) n init_config = Some c -> in_box p c.
+
+Check C06_ctrie_get_upd : forall (A : Type) (k k2 : list N) f (t : ctrie A),
+  ctrie_get k (ctrie_upd k f t) = Some (f (ctrie_get k t)) /\
+  (k2 <> k -> ctrie_get k2 (ctrie_upd k f t) = ctrie_get k2 t).
+
+Check C06_cset_insert_ok : forall x s,
+  cset_ok s -> cset_ok (cset_insert x s) /\
+  forall c, cset_mem c (cset_insert x s) = true <-> c = x \/ cset_mem c s = true.
+
+Check C06_spans_spec : forall sp s,
+  (forall w col, reg (add_span sp s) w col <-> reg sp w col \/ (w = sp_span s /\ col = sp_last s)) /\
+  (forall colors, get_colors sp s = Ok colors ->
+     Sorted.Sorted N.le colors /\ forall col, In col colors <-> reg sp (sp_span s) col) /\
+  (get_colors sp s = Panic <-> ctrie_get (sp_span s) sp = None).
+
+Check C06_orders_ok : order_ok order_oldest_first /\ order_ok order_newest_first.
+
+Check C06_cps_mono : forall order prog r r' goal,
+  cps_run order prog r goal = Ok true -> r <= r' -> cps_run order prog r' goal = Ok true.
+
+Check C06_cps_cant_mono : forall order prog r r', r <= r' ->
+  (cps_cant_halt order prog r = Ok true -> cps_cant_halt order prog r' = Ok true) /\
+  (cps_cant_blank order prog r = Ok true -> cps_cant_blank order prog r' = Ok true) /\
+  (cps_cant_spin_out order prog r = Ok true -> cps_cant_spin_out order prog r' = Ok true).
